@@ -3,6 +3,8 @@ import Proofs.ProbingBuildOps
 import Proofs.ProbingBuildBigram
 import Proofs.ProbingBuildRep
 import Proofs.ProbingBuildBlank
+import Proofs.ProbingBuildRepG
+import Proofs.ProbingBuildBlank2
 import Properties.C03
 /-! C03/C01 — the probing *builder* inside the model (`Model/ProbingBuild.lean` = lm/search_hashed.cc ReadNGrams,
 FindLower, AdjustLower, MarkLower, activate, unigram sign fix, missing-`<unk>` fix-up).
@@ -125,7 +127,75 @@ theorem probing_blank1_step_partial (combine : Nat → Word → Nat) (a : Arpa) 
     ∃ s', addLine combine false N s [x, y, z] e = .ok s' ∧ InvG combine a u0 N caps (S ++ [[x, y]] ++ [[x, y, z]]) s' :=
   invG_step_blank3 combine a u0 hu N caps S s inv x y z e hN hreal hblank hasc hfresh3 hfresh2 hcap3 hcap2 hE hSW hctx hx hy hval
 
-/-- the full statement (NOT proved for models that need blanks): the built structure represents `Table.build a` -/
+/-- **`probing_build_represents_blank1`** — SRI-pruned models whose blanks are single-level.  For every loaded proper
+ARPA (`ArpaOK'`: well-formed, probabilities and backed-off blank products ≤ 0, vocabulary = unigrams, no blank based on a
+hallucinated `<unk>`; **no suffix-closure**) in which every n-gram of order ≥ 4 has its immediate suffix (trigrams are
+arbitrary: *every model of order ≤ 3*, pruned or not), with lines in order of length, distinct keys, the chained hash
+injective on the keys of `Table.build a` and every table (blanks included) below its bucket count: the builder returns
+`.ok` and the built structure `Represents` `Table.build a` — real entries and hallucinated blanks with
+`prob = score`, back-off `-0.0`, and both marks. -/
+theorem probing_build_represents_blank1 (combine : Nat → Word → Nat) (a : Arpa) (nWords : Nat) (buckets : List Nat) (um : Rat)
+    (ok : ArpaOK' a nWords um)
+    (hcls : ∀ q ∈ ngramLines a, Cls1 a q.1)
+    (hsorted : (ngramLines a).Pairwise (fun p q => p.1.length ≤ q.1.length))
+    (hdist : (a.entries.map (·.1)).Nodup)
+    (hinj : ∀ k k', IsKey a k → IsKey a k' → k.length = k'.length → hashOf combine k = hashOf combine k' → k = k')
+    (hcaps : ∀ m, (keysOf (foldKeys [] (ngramLines a)) m).length < capOf buckets m) :
+    ∃ s Mmid Mlong, build combine false a nWords buckets um = .ok s ∧
+      Represents combine (toPLM false a.order s) (Table.build a) Mmid Mlong :=
+  build_represents_of_step combine a nWords buckets um ok (Cls1 a)
+    (fun S s p e inv si lc cls => step1 combine a nWords um ok a.order (capOf buckets) S s p e inv si lc cls)
+    hcls hsorted hdist hinj hcaps
+
+/-- **`probing_end_to_end_blank1`**: ARPA → built probing structure → every query = ARPA recursion, pruned models with
+single-level blanks included, no `Represents` hypothesis. -/
+theorem probing_end_to_end_blank1 (combine : Nat → Word → Nat) (a : Arpa) (nWords : Nat) (buckets : List Nat) (um : Rat)
+    (ok : ArpaOK' a nWords um)
+    (hcls : ∀ q ∈ ngramLines a, Cls1 a q.1)
+    (hsorted : (ngramLines a).Pairwise (fun p q => p.1.length ≤ q.1.length))
+    (hdist : (a.entries.map (·.1)).Nodup)
+    (hinj : ∀ k k', IsKey a k → IsKey a k' → k.length = k'.length → hashOf combine k = hashOf combine k' → k = k')
+    (hcaps : ∀ m, (keysOf (foldKeys [] (ngramLines a)) m).length < capOf buckets m)
+    (inj : HashInjective combine (Table.build a))
+    (h : List Word) (st : State) (sf : StateFor a h st) (w : Word) (hw : a.gram [w] ≠ none) :
+    ∃ s, build combine false a nWords buckets um = .ok s ∧
+      (fullScore (KV.ProbingLM.search combine (toPLM false a.order s)) st w).1.prob = score a h w := by
+  obtain ⟨s, Mmid, Mlong, hb, rep⟩ := probing_build_represents_blank1 combine a nWords buckets um ok hcls hsorted hdist hinj hcaps
+  exact ⟨s, hb, KV.C03.probing_prob a ok.wf (fun _ => false) combine _ Mmid Mlong rep inj h st sf w hw⟩
+
+/-- **`probing_build_represents_single`** — all files whose blanks are single-level, at any order: every n-gram of order
+≥ 4 has its immediate suffix *or the next shorter suffix* in the model (`Cls2`; trigrams arbitrary).  Same hypotheses
+and conclusion as `probing_build_represents_blank1`; the blank may now be based on an entry of any order
+(`invG_step_blank4`). -/
+theorem probing_build_represents_single (combine : Nat → Word → Nat) (a : Arpa) (nWords : Nat) (buckets : List Nat) (um : Rat)
+    (ok : ArpaOK' a nWords um)
+    (hcls : ∀ q ∈ ngramLines a, Cls2 a q.1)
+    (hsorted : (ngramLines a).Pairwise (fun p q => p.1.length ≤ q.1.length))
+    (hdist : (a.entries.map (·.1)).Nodup)
+    (hinj : ∀ k k', IsKey a k → IsKey a k' → k.length = k'.length → hashOf combine k = hashOf combine k' → k = k')
+    (hcaps : ∀ m, (keysOf (foldKeys [] (ngramLines a)) m).length < capOf buckets m) :
+    ∃ s Mmid Mlong, build combine false a nWords buckets um = .ok s ∧
+      Represents combine (toPLM false a.order s) (Table.build a) Mmid Mlong :=
+  build_represents_of_step combine a nWords buckets um ok (Cls2 a)
+    (fun S s p e inv si lc cls => step2 combine a nWords um ok (capOf buckets) S s p e inv si lc cls)
+    hcls hsorted hdist hinj hcaps
+
+/-- **`probing_end_to_end_single`** -/
+theorem probing_end_to_end_single (combine : Nat → Word → Nat) (a : Arpa) (nWords : Nat) (buckets : List Nat) (um : Rat)
+    (ok : ArpaOK' a nWords um)
+    (hcls : ∀ q ∈ ngramLines a, Cls2 a q.1)
+    (hsorted : (ngramLines a).Pairwise (fun p q => p.1.length ≤ q.1.length))
+    (hdist : (a.entries.map (·.1)).Nodup)
+    (hinj : ∀ k k', IsKey a k → IsKey a k' → k.length = k'.length → hashOf combine k = hashOf combine k' → k = k')
+    (hcaps : ∀ m, (keysOf (foldKeys [] (ngramLines a)) m).length < capOf buckets m)
+    (inj : HashInjective combine (Table.build a))
+    (h : List Word) (st : State) (sf : StateFor a h st) (w : Word) (hw : a.gram [w] ≠ none) :
+    ∃ s, build combine false a nWords buckets um = .ok s ∧
+      (fullScore (KV.ProbingLM.search combine (toPLM false a.order s)) st w).1.prob = score a h w := by
+  obtain ⟨s, Mmid, Mlong, hb, rep⟩ := probing_build_represents_single combine a nWords buckets um ok hcls hsorted hdist hinj hcaps
+  exact ⟨s, hb, KV.C03.probing_prob a ok.wf (fun _ => false) combine _ Mmid Mlong rep inj h st sf w hw⟩
+
+/-- the full statement (NOT proved for models with blank chains of length ≥ 2): the built structure represents `Table.build a` -/
 def ProbingBuildRepresents (combine : Nat → Word → Nat) (a : Arpa) (nWords : Nat) (buckets : List Nat) : Prop :=
   ∃ s Mmid Mlong, build combine false a nWords buckets = .ok s ∧
     Represents combine (toPLM false a.order s) (Table.build a) Mmid Mlong
